@@ -884,22 +884,24 @@ type astate =
 | AHas of bool
 | AEid
 
+(** val seq_opt : 'a1 option list -> 'a1 list option **)
+
+let rec seq_opt = function
+| [] -> Some []
+| o :: t ->
+  (match o with
+   | Some a -> (match seq_opt t with
+                | Some r -> Some (a :: r)
+                | None -> None)
+   | None -> None)
+
 (** val arch_state : (n -> bool) -> query -> astate option **)
 
 let rec arch_state has = function
 | QRef c -> if has c then Some (ACol (c, false)) else None
 | QMut c -> if has c then Some (ACol (c, true)) else None
 | QTuple qs ->
-  option_map (fun x -> ATuple x)
-    (let rec go = function
-     | [] -> Some []
-     | q' :: t ->
-       (match arch_state has q' with
-        | Some a -> (match go t with
-                     | Some r -> Some (a :: r)
-                     | None -> None)
-        | None -> None)
-     in go qs)
+  option_map (fun x -> ATuple x) (seq_opt (map (arch_state has) qs))
 | QOpt q' ->
   Some (match arch_state has q' with
         | Some a -> ASome a
